@@ -24,7 +24,7 @@ From TucModel Require Import Base.Bytes Base.ListX Model.Bounds Spec.Resolve Pro
   Proofs.C01More Tie.Gen_trim Tie.Bridge_trim
   Tie.Gen_fb_try_from Tie.Bridge_fb_try_from
   Model.Utf8 Model.CutLines Proofs.C05 Proofs.C03Full Proofs.C05Full Tie.RsLines Tie.Gen_read_and_cut_lines Tie.Bridge_read_and_cut_lines
-  Proofs.C12 Proofs.C16 Tie.Gen_fill_regex Tie.Bridge_fill_regex Tie.Gen_trim_regex Tie.Bridge_trim_regex
+  Proofs.C12 Proofs.C16 Tie.Gen_fill_regex Tie.Bridge_fill_regex Tie.Gen_trim_regex Tie.Bridge_trim_regex Tie.Gen_compress_regex Tie.Bridge_compress_regex
   Proofs.Plain Proofs.C16Replace Tie.RsRegex Tie.Gen_maybe_replace Tie.Bridge_maybe_replace
   Model.CutStr Tie.Gen_fast_output_parts Tie.Bridge_fast_output_parts Tie.Gen_fast_cut_record Tie.Bridge_fast_cut_record Proofs.C02
   Proofs.C13 Proofs.C06 Proofs.C03Full Proofs.C19 Proofs.C18Iff.
@@ -351,7 +351,18 @@ Proof.
   - rewrite (C05_buffered_same o input bs x Hp Ht Hs Hr Hb Hnz Hv Hi Hst Hx). reflexivity.
 Qed.
 
+(** C16: -p with -r R rewrites every run of matches to the literal R before cutting - the record becomes
+    its greedy fields joined by R *)
+Theorem tie_C16_compress_rewrites_runs : forall (line nd : bytes) (r : re),
+  gen_compress_regex line (rb_greedy (RxRe r)) nd
+  = Ret (intercalate nd (pieces line (gaps_from 0 (re_find_iter (RPlus r) line) (length line)))).
+Proof.
+  intros line nd r. rewrite (tie_compress_regex line nd (rb_greedy (RxRe r)) (re_find_iter (RPlus r) line)); [|reflexivity].
+  rewrite replace_matches_is_intercalate. reflexivity.
+Qed.
+
 Print Assumptions tie_try_into_range_spec.
+Print Assumptions tie_C16_compress_rewrites_runs.
 Print Assumptions tie_C05_whichever_algorithm.
 Print Assumptions tie_C16_fields_are_the_gaps.
 Print Assumptions tie_C16_trim.
